@@ -25,7 +25,13 @@ CLAIMED = {
              "tokens and attribute values, where only a numeric reference can put it - C15_step_provenance, C15_ref_no_nul; "
              "C15_clean_no_refs: without '&' no CR at all). Tree level (Props/C15Tree.lean): the XML tree-builder model is "
              "insensitive to how text is cut into character tokens (C15_tree_merge_obs; the NUMBER of parse-error reports does "
-             "depend on the cut - C15_tree_error_count_depends_on_cut - and is observed only up to repetition). The real code is additionally checked by "
+             "depend on the cut - C15_tree_error_count_depends_on_cut - and is observed only up to repetition). END TO END "
+             "(Props/C15Joint.lean): the joint parse on the models (Model/XmlJoint.lean: tokenizer model fed chunk after chunk and "
+             "ended, its tokens handed to the tree-builder model as XmlTreeBuilder::process_token does; executed by the driver as "
+             "`xmltok jtree` against the real parse_document on every tree case) always succeeds (C15_joint_total) and for ALL "
+             "inputs, ALL chunkings and BOTH values of exact_errors ends in the SAME tree-builder state as the one-piece default "
+             "parse (C15_joint_end_to_end_state, C15_joint_any_two; C15_joint_run_boundaries: also for any other cut of text runs "
+             "into character tokens, which is what the real tokenizer's bulk reads produce). The real code is additionally checked by "
              "code-vs-code oracles (every 2-partition / singletons / random partitions; exact_errors on/off modulo error "
              "tokens; CR and CRLF spellings vs LF; NUL vs U+FFFD; discard_bom on/off; tokens and RcDom trees).",
         note="Trusted: Lean kernel; the hand-written model + the xmltok correspondence (token stream incl. error messages on "
